@@ -6,7 +6,7 @@ ROOT="$(pwd)"
 export CARGO_NET_OFFLINE=true
 mkdir -p "$ROOT/.build" "$ROOT/.work" "$ROOT/evidence"
 gcc -O2 -fPIC -shared -o "$ROOT/.build/iomon.so" "$ROOT/shim/iomon.c" -ldl -lpthread
-( cd "$ROOT/harness" && cargo build --offline )
+( cd "$ROOT/harness" && cargo build --offline --target-dir "$ROOT/.build/harness" )
 ( cd /repo && CARGO_PROFILE_DEV_OPT_LEVEL=1 CARGO_PROFILE_DEV_DEBUG=0 cargo build --offline --features verif-hooks,zstd-compression,lzma-compression --target-dir "$ROOT/.build/cli" )
 # Sanity: Blake2b-512 used by the oracles agrees with Python's hashlib.
 python3 - <<'PY'
